@@ -597,6 +597,68 @@ def e2e_case(case):
 _LOGS_ON = False
 
 
+def client_sequence(item):
+    """one client, its own limit, many small transfers one after the other (what upload / download of a tree does): the
+    limit bounds the bytes of all of them together, not each transfer afresh"""
+    direction, nfiles, size, limit = item
+    part = report.Partial()
+    data = bytes(range(256)) * (size // 256 + 1)
+    data = data[:size]
+    rig = Rig(tree={f"f{k}": data for k in range(nfiles)}, server_kwargs={"block_size": 8192})
+    w = rig.world
+    a = w.aioftp
+    times = {}
+    problems = []
+    try:
+        async def main():
+            ckw = {("write" if direction == "upload" else "read") + "_speed_limit": limit}
+            c = a.Client(path_io_factory=a.MemoryPathIO, **ckw)
+            await c.connect("127.0.0.1", 2121)
+            await c.login()
+            times["t0"] = w.loop.time()
+            for k in range(nfiles):
+                if direction == "upload":
+                    async with c.upload_stream(f"/up{k}") as st:
+                        await st.write(data)
+                else:
+                    got = bytearray()
+                    async with c.download_stream(f"/f{k}") as st:
+                        async for blk in st.iter_by_block(8192):
+                            got += blk
+                    if bytes(got) != data:
+                        problems.append({"kind": "data", "k": k})
+            times["t1"] = w.loop.time()
+            await c.quit()
+        try:
+            w.run(main())
+        except Hang:
+            problems.append({"kind": "hang"})
+        total = nfiles * size
+        took = times.get("t1", 0) - times.get("t0", 0)
+        # blocks in flight: one (the transfers are sequential, each is one block); control-channel lines share the
+        # client's throttle and only add to what must be waited for
+        need = (total - size) / limit
+        if not problems and took < need - 1e-6:
+            problems.append({"kind": "cumulative-rate-exceeded-across-transfers", "bytes": total, "took": round(took, 4),
+                             "limit_allows_at_the_earliest": round(need, 4)})
+        # and no more delay than the limit asks for (all control lines together are far below 2000 bytes here)
+        if not problems and took > (total + 2000) / limit + 1e-6:
+            problems.append({"kind": "more-delay-than-the-limit-requires", "took": round(took, 4),
+                             "at_most": round((total + 2000) / limit, 4)})
+        part.evaluations += 1
+        part.traces += 1
+        part.transitions += w.net.n_events
+        k = report.fp(["client-sequence", list(item)])
+        part.states.add(k)
+        part.nontrivial.add(k)
+        for p in problems[:1]:
+            part.violation({"kind": p["kind"], "levels": ["client"], "direction": direction, "sequence": True},
+                           {"problem": p, "case": list(item)}, replay={"client_sequence": list(item)})
+    finally:
+        rig.close()
+    return part
+
+
 def enable_write_logs():
     """environment-boundary observation: (virtual time, bytes) of every transport.write and of every
     StreamReader.read*/readline call (time of the call, bytes returned) - a harness-side wrapper on asyncio"""
@@ -699,7 +761,9 @@ def run(tier, seed, t0):
     api_items += [(100, r, 7 if tier == "quick" else 9, d, "fine") for r in (0.001, 0.01) for d in ("read", "write")]
     cfg_items = [(k, 2 if tier == "quick" else 3) for k in ("two-throttles", "unlimited", "setter-clone", "shared-vs-cloned")]
     eitems, ncases = e2e_items(tier)
-    parts = report.pmap(api_single, api_items) + report.pmap(api_configs, cfg_items) + report.pmap(e2e_work, eitems)
+    seq_items = [(d, n, size, 20000) for d in ("upload", "download") for n in (2, 5, 15) for size in (1000, 4000, 8192, 10000)]
+    parts = report.pmap(api_single, api_items) + report.pmap(api_configs, cfg_items) + report.pmap(e2e_work, eitems) \
+        + report.pmap(client_sequence, seq_items)
     part = report.merge_all(parts)
     bounds = {"api": {"limits": [8, 1024], "reset_rates": [1, 10], "fine": "L=100, reset 0.001/0.01, 1-byte blocks, gaps 0/4/16 ms, length 7 (9 thorough)", "read_paths": ["read", "readline", "readexactly"], "chunk": "1, L/2, L, 3L", "io_duration": "0, 1/4, 2*reset",
                       "idle_gap": "0, 1/2, reset+1", "sequence_length": length if tier != "quick" else "2 (3 for L=8, reset=1)",
@@ -707,7 +771,7 @@ def run(tier, seed, t0):
                                   "shared vs cloned (two concurrent streams)"]},
               "e2e": {"levels": LEVELS, "pairs": "all ordered pairs (first = tightest)", "directions": ["download", "upload"],
                       "connections_users": [(1, 1), (2, 1), (2, 2), (3, 2)], "mid_transfer_logins": "three more connections of the measured users log in and quit at 25/50/60 % of the transfer", "churn": "extra connections of the same users log in and out between the logins of the measured ones", "sizes": [BLOCK, 3 * BLOCK + 1, 20 * BLOCK],
-                      "limit": LIM, "cases": ncases, "relogin": "free user then limited user and the reverse on one control connection", "timeouts": "server and client socket_timeout of a quarter of one throttle pause (nobody stalls)"}}
+                      "limit": LIM, "cases": ncases, "relogin": "free user then limited user and the reverse on one control connection", "client_sequence": "one client with its own limit moving 2 / 5 / 15 files of 1000..10000 bytes one after the other", "timeouts": "server and client socket_timeout of a quarter of one throttle pause (nobody stalls)"}}
     return report.finish(
         PID, tier, seed, "model_checking", part, t0,
         rule="API: every sequence over the (chunk, duration, gap) alphabet through the real ThrottleStreamIO on the virtual "
@@ -723,6 +787,10 @@ def run(tier, seed, t0):
 def replay(path):
     data = json.loads(open(path).read())
     rp = data["replay"]
+    if "client_sequence" in rp:
+        part = client_sequence(tuple(rp["client_sequence"]))
+        print(json.dumps([v["detail"] for v in part.violations], indent=1, default=repr))
+        return 1 if part.violations else 0
     if "e2e" in rp:
         enable_write_logs()
         part = e2e_case(rp["e2e"])
